@@ -66,6 +66,8 @@ def make_layouts(rng, n_eng, n_lines, same=False):
                             polygon=np.array([[0, 10 * li - 3], [100, 10 * li - 3], [100, 10 * li + 2], [0, 10 * li + 2]]),
                             heights=[3, 2], transcription=text, logits=sparse.csc_matrix(L), characters=list(chars),
                             logit_coords=[0, T])
+            # a confidence already stored with the line (PAGE XML `conf`, earlier export): None, low or high
+            line.transcription_confidence = rng.choice([None, None, round(rng.random(), 3), 0.95, 1.0, 0.0])
             reg.lines.append(line)
         pl.regions.append(reg)
         layouts.append(pl)
@@ -83,7 +85,7 @@ def _run(ctx):
     ms = load_script()
     rng = ctx.rng
     ctx.rule = ('1..4 in-memory page layouts with identical line ids, 1..4 lines, per-engine charsets (possibly different), empty '
-                'transcriptions, peaky/diffuse/too-short logits (the 0.5 fallback), merging a layout with copies of itself; '
+                'transcriptions, peaky/diffuse/too-short logits (the 0.5 fallback), merging a layout with copies of itself; lines arriving with a stored confidence (None/low/high); '
                 'non-trivial = >= 2 engines and the winner is not engine 0')
     ctx.assumptions += ['mean character confidences computed by the real get_confidences are sent to the model as exact dyadics; '
                         'ties are exact float equalities (same object content)']
@@ -105,7 +107,8 @@ def _run(ctx):
                 row.append(float(c.mean()) if c.size > 0 else -10.0)
             confs.append(row)
         inp = dict(engines=n_eng, lines=n_lines, self_merge=same,
-                   texts=[[l.transcription for l in pl.lines_iterator()] for pl in before], confidences=confs)
+                   texts=[[l.transcription for l in pl.lines_iterator()] for pl in before], confidences=confs,
+                   stored_confidences=[[l.transcription_confidence for l in pl.lines_iterator()] for pl in before])
         try:
             ms.merge_layouts(layouts)
         except BaseException as e:
